@@ -23,7 +23,7 @@ const (
 	c06MaxBatch = 10
 )
 
-var c06EntryName = [...]string{"Eval(dfr.Run())", "exported dfr.Run", "Eval(dfr.RunRaw())", "EvalWithContext(dfr.RunRaw())", "Compile+Execute(dfr.RunRaw())"}
+var c06EntryName = [...]string{"Eval(dfr.Run())", "exported dfr.Run", "Eval(dfr.RunRaw())", "EvalWithContext(dfr.RunRaw())", "Compile+Execute(dfr.RunRaw())", "Eval(var v = dfr.RunRaw())"}
 
 type c06Native struct {
 	ev  map[int][]string
@@ -313,6 +313,9 @@ func RunC06(t *testing.T, tape *Tape) *Outcome {
 				if evalErr == nil {
 					evalRes, evalErr = it.Execute(prog)
 				}
+			case 5:
+				// the panic unwinds through the initialisation of a package-level variable
+				evalRes, evalErr = it.Eval(fmt.Sprintf("var pv%d = dfr.RunRaw()", pi))
 			}
 		}
 		if spawns {
@@ -423,7 +426,7 @@ func hasNonProbe(o *Outcome) bool {
 }
 
 func entryClass(e int) string {
-	return [...]string{"eval", "exported", "eval", "eval-ctx", "execute"}[e]
+	return [...]string{"eval", "exported", "eval", "eval-ctx", "execute", "eval-var-init"}[e]
 }
 
 func faultName(ev string) string {
